@@ -207,8 +207,15 @@ impl Prop for C05 {
         for payload in shrink_payload(&c.payload) {
             out.push(Case { payload, ..c.clone() });
         }
+        // position-dependent failures rarely survive a smaller stream under the *same* cut positions: also try every
+        // smaller stream under byte-at-a-time delivery
+        let ones = crate::props::common::ones_spec(&c.spec);
+        if c.spec.trace != ones.trace {
+            out.push(Case { spec: ones.clone(), ..c.clone() });
+        }
         for stream in shrink_stream(&c.stream) {
-            out.push(Case { stream, ..c.clone() });
+            out.push(Case { stream: stream.clone(), ..c.clone() });
+            out.push(Case { stream, spec: ones.clone(), ..c.clone() });
         }
         out
     }
